@@ -4,7 +4,7 @@
 //!   strs <sequences> <ops-per-sequence> <sweep-texts> <decode-cases>      env: VERIF_SEED
 //!
 //! Output (line protocol of `lean/Driver/StrsD.lean`):
-//!   `new <kind> <cap> <hex>`            a fresh string (answer `ok | <hex> | <len> | <cap>`)
+//!   `new <kind> <ctor> <hex> [g<n>] => ok | <hex> | <len> | <cap>`   a fresh string (ctor: s = from_str_in, c<n> = with_capacity_in(n)+push_str)
 //!   `op <name> <args…> => <observed>`   observed = `<outcome> | <contents hex> | <len> | <cap or ->`
 //!   `oracle C09 <message>`              the IMPLEMENTATION violates the property (never consults the model):
 //!                                       raw bytes are not UTF-8 after an operation (also a panicked one),
@@ -49,6 +49,8 @@ enum Op {
     ExtendFromWithin(Rg),
     SplitOff(Rg),
     IntoCstr,
+    Reserve(usize),
+    ReserveExact(usize),
 }
 
 impl Op {
@@ -68,6 +70,8 @@ impl Op {
             Op::ExtendFromWithin(..) => "extend_from_within",
             Op::SplitOff(..) => "split_off",
             Op::IntoCstr => "into_cstr",
+            Op::Reserve(..) => "reserve",
+            Op::ReserveExact(..) => "reserve_exact",
         }
     }
     fn text(&self) -> String {
@@ -86,6 +90,8 @@ impl Op {
             Op::ExtendFromWithin(r) => format!("extend_from_within {} {}", bd(r.0), bd(r.1)),
             Op::SplitOff(r) => format!("split_off {} {}", bd(r.0), bd(r.1)),
             Op::IntoCstr => "into_cstr".into(),
+            Op::Reserve(n) => format!("reserve {n}"),
+            Op::ReserveExact(n) => format!("reserve_exact {n}"),
         }
     }
 }
@@ -278,14 +284,17 @@ fn gen_op(ctx: &mut Ctx, kind: Kind, r: &str, last: bool) -> Op {
             }
             77..=85 => Op::ReplaceRange(gen_range(ctx, r), gen_text(&mut ctx.rng, 4)),
             86..=91 => Op::ExtendFromWithin(gen_range(ctx, r)),
-            92..=98 => Op::SplitOff(gen_range(ctx, r)),
+            92..=96 => Op::SplitOff(gen_range(ctx, r)),
+            97 => Op::Reserve(if ctx.rng.chance(1, 6) { 300 + ctx.rng.below(3000) as usize } else { ctx.rng.below(40) as usize }),
+            98 => Op::ReserveExact(if ctx.rng.chance(1, 6) { 300 + ctx.rng.below(3000) as usize } else { ctx.rng.below(40) as usize }),
             _ => Op::IntoCstr,
         };
         let supported = match (&op, kind) {
             (Op::IntoCstr, Kind::Bump | Kind::Mut) => last,
             (Op::IntoCstr, _) => false,
             (Op::SplitOff(..), Kind::Mut) => false,
-            (Op::Push(..) | Op::PushStr(..) | Op::Insert(..) | Op::InsertStr(..) | Op::ReplaceRange(..) | Op::ExtendFromWithin(..), Kind::Box) => false,
+            (Op::ReserveExact(..), Kind::Fixed) => false,
+            (Op::Push(..) | Op::PushStr(..) | Op::Insert(..) | Op::InsertStr(..) | Op::ReplaceRange(..) | Op::ExtendFromWithin(..) | Op::Reserve(..) | Op::ReserveExact(..), Kind::Box) => false,
             _ => true,
         };
         if supported {
@@ -349,8 +358,10 @@ fn run_impl(s: &mut Option<Box<dyn StrOps + '_>>, kind: Kind, op: &Op, seen: &mu
             Op::ExtendFromWithin(r) => s.extend_from_within(*r).map(|_| String::new()),
             Op::SplitOff(r) => {
                 let (b, cap) = s.split_off(*r);
-                Ok(format!("{}:{}", hex(&b), if kind == Kind::Fixed { cap.to_string() } else { "-".into() }))
+                Ok(format!("{}:{}", hex(&b), if kind == Kind::Box { "-".into() } else { cap.to_string() }))
             }
+            Op::Reserve(n) => s.reserve(*n).map(|_| String::new()),
+            Op::ReserveExact(n) => s.reserve_exact(*n).map(|_| String::new()),
             Op::IntoCstr => unreachable!(),
         }
     }));
@@ -416,6 +427,7 @@ fn run_ref(r: &mut String, op: &Op, seen: &mut Vec<char>) -> Obs {
                 let o: String = r.drain(*rg).collect();
                 hex(o.as_bytes())
             }
+            Op::Reserve(_) | Op::ReserveExact(_) => String::new(),
             Op::IntoCstr => {
                 let b = ref_cstr(r.as_bytes());
                 *r = String::from_utf8(b.clone()).unwrap();
@@ -457,13 +469,18 @@ fn step(ctx: &mut Ctx, s: &mut Option<Box<dyn StrOps + '_>>, r: &mut String, kin
         want = Obs::Err;
         *r = before.clone();
     }
+    if let (Kind::Fixed, Op::Reserve(n)) = (kind, op) {
+        if *n > cap_before - before.len() {
+            want = Obs::Err;
+        }
+    }
     ctx.cases += 1;
     ctx.ops.entry(op.name()).or_insert([0; 3])[obs.class()] += 1;
     ctx.kinds[kind.idx()] += 1;
     // ---- observation
     let (bytes, cap) = match (&cstr, s.as_ref()) {
         (Some(b), _) => (b.clone(), "-".to_string()),
-        (None, Some(s)) => (s.bytes(), if kind == Kind::Fixed { s.cap().to_string() } else { "-".into() }),
+        (None, Some(s)) => (s.bytes(), if kind == Kind::Box { "-".into() } else { s.cap().to_string() }),
         (None, None) => {
             // `into_cstr` panicked after consuming the string: nothing left to observe
             let _ = writeln!(ctx.out, "op {optext} => panic | - | 0 | -");
@@ -471,7 +488,36 @@ fn step(ctx: &mut Ctx, s: &mut Option<Box<dyn StrOps + '_>>, r: &mut String, kin
             return false;
         }
     };
-    let _ = writeln!(ctx.out, "op {optext} => {} | {} | {} | {cap}", obs.text(), hex(&bytes), bytes.len());
+    // MutBumpString: the capacity the arena granted is an input of the model
+    let grant = match (kind, s.as_ref()) {
+        (Kind::Mut, Some(s)) => format!(" g{}", s.cap()),
+        _ => String::new(),
+    };
+    let _ = writeln!(ctx.out, "op {optext}{grant} => {} | {} | {} | {cap}", obs.text(), hex(&bytes), bytes.len());
+    // ---- oracle 0: capacity — len <= capacity; no reallocation while the room suffices; reserve keeps its promise
+    if let (Some(s), false) = (s.as_ref(), kind == Kind::Box) {
+        let cap_after = s.cap();
+        if bytes.len() > cap_after {
+            ctx.oracle(format!("CAPACITY kind={} after `{optext}`: len {} > capacity {cap_after}", kind.name(), bytes.len()));
+        }
+        let reshapes = matches!(op, Op::SplitOff(_) | Op::IntoCstr);
+        let asked = match op {
+            Op::Reserve(n) | Op::ReserveExact(n) => before.len().saturating_add(*n),
+            _ => bytes.len(),
+        };
+        if !reshapes && asked <= cap_before && cap_after != cap_before {
+            ctx.oracle(format!("CAPACITY kind={} `{optext}` on {:?}: capacity changed {cap_before} -> {cap_after} although {asked} bytes fit (reallocation while the capacity sufficed)", kind.name(), before));
+        }
+        if let (Op::Reserve(n) | Op::ReserveExact(n), Obs::Ok(_)) = (op, &obs) {
+            if cap_after - bytes.len().min(cap_after) < *n {
+                ctx.oracle(format!("CAPACITY kind={} `{optext}`: promised {n} spare bytes, capacity {cap_after} len {}", kind.name(), bytes.len()));
+            }
+            ctx.branch(if asked <= cap_before { "reserve:room-sufficed" } else { "reserve:grew" });
+        }
+        if cap_after != cap_before && !reshapes {
+            ctx.branch("capacity:grew");
+        }
+    }
     // ---- oracle 1: valid UTF-8 after every operation, also a panicked one
     ctx.utf8_checks += 1;
     let is_cstr = cstr.is_some();
@@ -624,12 +670,30 @@ fn count_branches(ctx: &mut Ctx, op: &Op, before: &str, obs: &Obs) {
 
 // ------------------------------------------------------------------------------------------------
 
-fn new_line(ctx: &mut Ctx, kind: Kind, cap: usize, text: &str) {
+/// the `new` line, printed once the real string exists (its capacity is part of the observation;
+/// for a MutBumpString it is also the grant handed to the model)
+fn new_line(ctx: &mut Ctx, kind: Kind, ctor: Option<usize>, text: &str, s: &dyn StrOps) {
     ctx.news += 1;
-    let _ = writeln!(ctx.out, "new {} {} {}", kind.name(), cap, hex(text.as_bytes()));
+    let ctor_tok = match (kind, ctor) {
+        (Kind::Box, _) | (Kind::Bump, None) | (Kind::Mut, None) => "s".to_string(),
+        (Kind::Bump, Some(c)) => format!("c{c}"),
+        (Kind::Fixed, c) | (Kind::Mut, c) => format!("c{}", c.unwrap_or(0).max(text.len())),
+    };
+    let grant = if kind == Kind::Mut { format!(" g{}", s.cap()) } else { String::new() };
+    let cap = if kind == Kind::Box { "-".to_string() } else { s.cap().to_string() };
+    let b = s.bytes();
+    let _ = writeln!(ctx.out, "new {} {ctor_tok} {}{grant} => ok | {} | {} | {cap}", kind.name(), hex(text.as_bytes()), hex(&b), b.len());
+    if b != text.as_bytes() {
+        ctx.oracle(format!("CONTENT-MISMATCH kind={} constructor {ctor_tok} on {:?}: contents {}", kind.name(), text, hex(&b)));
+    }
+    if let (Some(c), false) = (ctor, kind == Kind::Box) {
+        if s.cap() < c || s.cap() < b.len() {
+            ctx.oracle(format!("CAPACITY kind={} with_capacity({c}) + push_str({:?}): capacity {}", kind.name(), text, s.cap()));
+        }
+    }
 }
 
-fn with_dir(up: bool, kind: Kind, text: &str, cap: usize, f: &mut dyn FnMut(Box<dyn StrOps + '_>)) {
+fn with_dir(up: bool, kind: Kind, text: &str, cap: Option<usize>, f: &mut dyn FnMut(Box<dyn StrOps + '_>)) {
     if up {
         with_string::<true>(kind, text, cap, f)
     } else {
@@ -646,13 +710,16 @@ fn sequence(ctx: &mut Ctx, n: u64, nops: u64) {
     let kind = pick_kind(ctx);
     let up = ctx.rng.chance(1, 2);
     let text = gen_text(&mut ctx.rng, 8);
-    let cap = text.len() + ctx.rng.below(24) as usize;
-    let cap = if kind == Kind::Fixed { cap } else { 0 };
+    let cap = match kind {
+        Kind::Fixed => Some(text.len() + ctx.rng.below(24) as usize),
+        Kind::Bump | Kind::Mut if ctx.rng.chance(1, 2) => Some(ctx.rng.below(30) as usize),
+        _ => None,
+    };
     let tseed = ctx.rng.0;
     let _ = writeln!(ctx.out, "# trace {n} sequence kind={} up={} seed {tseed}", kind.name(), up as u8);
-    new_line(ctx, kind, cap, &text);
     let mut r = text.clone();
     with_dir(up, kind, &text, cap, &mut |s| {
+        new_line(ctx, kind, cap, &text, &*s);
         let mut s = Some(s);
         for i in 0..nops {
             let op = gen_op(ctx, kind, &r, i + 1 == nops);
@@ -703,10 +770,10 @@ fn sweep(ctx: &mut Ctx, n: u64) {
                 continue;
             }
             // a fixed string with room for some, not all, of the growing operations
-            let cap = if kind == Kind::Fixed { len + ctx.rng.below(6) as usize } else { 0 };
-            new_line(ctx, kind, cap, &text);
+            let cap = if kind == Kind::Fixed { Some(len + ctx.rng.below(6) as usize) } else { None };
             let mut r = text.clone();
             with_dir(up, kind, &text, cap, &mut |s| {
+                new_line(ctx, kind, cap, &text, &*s);
                 let mut s = Some(s);
                 step(ctx, &mut s, &mut r, kind, op);
             });
@@ -811,9 +878,9 @@ fn main() {
         let _ = writeln!(ctx.out, "# trace {n} fixed-case kind={} seed 0", kind.name());
         n += 1;
         let text = "a\u{e9} b";
-        new_line(&mut ctx, kind, 8, text);
         let mut r = text.to_string();
-        with_dir(true, kind, text, 8, &mut |s| {
+        with_dir(true, kind, text, Some(8), &mut |s| {
+            new_line(&mut ctx, kind, Some(8), text, &*s);
             let mut s = Some(s);
             for rg in [(2, 2), (1, 1), (3, 3), (2, 3), (1, 3)] {
                 let op = Op::SplitOff((Bound::Included(rg.0), Bound::Excluded(rg.1)));
@@ -836,6 +903,8 @@ fn main() {
         cstrings(&mut ctx, n);
         n += 1;
     }
+    let _ = writeln!(ctx.out, "# trace {n} decode seed {}", ctx.rng.0);
+    n += 1;
     let dstats = decode_section(&mut ctx, decodes);
     ctx.flush();
     println!(
